@@ -126,8 +126,13 @@ Weights == {<<ROne>>, <<R(1, 2), FromInt(-1)>>, <<RZero, ROne, R(1, 4)>>, <<ROne
 
 J(x) == x   \* (documentation: values below are serialised with ToJson)
 
+\* sexp: the knots are scaled by 2^-sexp before the call (an exact operation in
+\* binary floating point) and the coefficient of u^k is scaled back by
+\* 2^(-sexp*k): B-splines only depend on knot ratios, so E and S stay the same.
+\* This reaches knot spacings far below machine epsilon ("any positive spacing").
 GenCases(k) ==
-  {[op |-> "FpGen", knots |-> k, p |-> p, E |-> GenI(k, p), S |-> GenAbs(k, p)] : p \in {q \in 0..MaxP : Len(k) >= q + 2}}
+  {[op |-> "FpGen", knots |-> k, p |-> p, sexp |-> sx, E |-> GenI(k, p), S |-> GenAbs(k, p)] :
+     p \in {q \in 0..MaxP : Len(k) >= q + 2}, sx \in {0, 60}}
 
 IntGrid(g) == g \in {E4, E5}
 SplCases(a) ==
